@@ -25,9 +25,16 @@ Shape(t, k) ==
 RECURSIVE Recs(_, _)
 Recs(ts, k) == IF ts = << >> THEN << >> ELSE EncodeRecord(k, Shape(Head(ts), k)) \o Recs(Tail(ts), k + 1)
 
+RECURSIVE Entries(_, _, _)
+Entries(ts, k, off) == IF ts = << >> THEN << >>
+                       ELSE LET w == ContentWords(Shape(Head(ts), k))
+                            IN  BE32(off) \o BE32(w) \o Entries(Tail(ts), k + 1, off + 4 + w)
+
 MkFile(ts) ==
     LET rb == Recs(ts, 1)
-    IN  [types |-> ts, shp |-> EncodeHeader(50 + Len(rb) \div 2, IF ts = << >> THEN 0 ELSE ts[1], ZeroBox) \o rb]
+        t0 == IF ts = << >> THEN 0 ELSE ts[1]
+    IN  [types |-> ts, shp |-> EncodeHeader(50 + Len(rb) \div 2, t0, ZeroBox) \o rb,
+         shx |-> EncodeHeader(50 + 4 * Len(ts), t0, ZeroBox) \o Entries(ts, 1, 50)]
 
 TypeSeqs == { << >> } \cup { << a >> : a \in Codes } \cup { << a, b >> : a, b \in Codes }
             \cup { << a, a, b >> : a, b \in Codes }
